@@ -19,7 +19,7 @@ FLOORS = {"sweep": (150, 150), "config=siblings": (70, 70), "act=copy": (50, 50)
 
 
 def tlc_jobs(tier, seed):
-    jobs = [j for j in c05.tlc_jobs(tier, seed) if not j["tag"].endswith("_ctor")]
+    jobs = [j for j in c05.tlc_jobs(tier, seed) if not j["tag"].endswith("_ctor") and "_iw_" not in j["tag"]]
     jobs.append(dict(tag=tier + "_sweep", module="MC_C15", cfg=dict(constants=dict(Emit=True), invariants=["Sane"]), run=dict(timeout=600)))
     return jobs
 
